@@ -626,6 +626,25 @@ def generate(unit_name, repo=None, extra_fn_hook=None, canary=False, findings=Fa
                             raise LostAnchor("%s: `%s :: fn %s` not found" % (file, key, f))
             else:
                 raise Unsupported("item kind %s not supported (%s)" % (kind, key))
+    # functions entirely outside the verifier's reach: nothing is claimed about them except that their text is the one
+    # the catalogued witnesses were checked against (sha256 pin -> structural obligation, needs a reproducing witness)
+    for pn in unit.get("pinned", []):
+        pfile = pn["file"]
+        ppath = os.path.join(repo, pfile)
+        if not os.path.exists(ppath):
+            raise LostAnchor("source file %s missing" % pfile)
+        psf = SourceFile(pfile, open(ppath).read())
+        pit = psf.find(pn["key"], pn.get("child"))
+        raw = pit.body() if pit.body_open is not None else pit.text()
+        sha = hashlib.sha256(raw.encode()).hexdigest()
+        fkey = "%s :: %s%s" % (pfile, pn["key"], (" :: " + pn["child"]) if pn.get("child") else "")
+        want = load_pins().get(fkey)
+        info.setdefault("structural", []).append({
+            "item": fkey, "labels": pn.get("labels", []), "ok": (want is None) or (want == sha), "have": [sha], "want": [want],
+            "clause": "text of `%s` (outside the verifier's reach: %s) is unchanged since its witnesses were last reviewed" % (fkey, pn.get("why", ""))})
+        info.setdefault("pins_seen", {})[fkey] = sha
+        info["functions"].append({"fn": fkey, "mode": "pinned", "sha256": sha, "rules_applied": [], "logging_stmts_dropped": 0,
+                                  "trusted_reason": pn.get("why"), "degraded": [], "termination_unproved": False})
     out.add("} // verus!")
     out.add("fn main() {}")
     # contracts that were given but never used indicate a renamed/removed function: lost anchor
